@@ -102,6 +102,21 @@ pub fn check(c: &Case, seams_open: bool) -> CheckResult {
             }
         }
         o.class_if(cont, "subpath-continued-after-close");
+        {
+            let mut cur: Option<(f32, f32)> = None;
+            let mut touch = false;
+            for (i, op) in c.path.ops.iter().enumerate() {
+                match *op {
+                    POp::M(x, y) => {
+                        touch |= i > 0 && cur == Some((x, y)) && !matches!(c.path.ops[i - 1], POp::Z | POp::M(..));
+                        cur = Some((x, y));
+                    }
+                    POp::L(x, y) | POp::Q(_, _, x, y) | POp::C(_, _, _, _, x, y) => cur = Some((x, y)),
+                    POp::Z => cur = None,
+                }
+            }
+            o.class_if(touch, "subpath-beginning-exactly-where-the-previous-open-one-ended");
+        }
         o.class_if(cont_curve, "curve-directly-after-close");
     }
     o.class_if(polys.iter().any(|p| p.closed), "closed-subpath");
@@ -344,6 +359,27 @@ pub fn stroke_path(ext: f32, allow_curves: bool) -> BoxedStrategy<PathSpec> {
                             };
                         }
                         sub.remove(0);
+                    }
+                    // ... or, after an *open* subpath, begin exactly where that one ended (with its own move_to: two
+                    // subpaths that merely touch, each with its caps there and no join between them)
+                    POp::M(ax, ay) if k > 0 && !prev_closed && cont[k] && !ops.is_empty() => {
+                        let end = match ops[ops.len() - 1] {
+                            POp::M(x, y) | POp::L(x, y) | POp::Q(_, _, x, y) | POp::C(_, _, _, _, x, y) => (x, y),
+                            POp::Z => (ax, ay),
+                        };
+                        let (dx, dy) = (end.0 - ax, end.1 - ay);
+                        for op in sub.iter_mut() {
+                            *op = match *op {
+                                POp::M(x, y) => POp::M(x + dx, y + dy),
+                                POp::L(x, y) => POp::L(x + dx, y + dy),
+                                POp::Q(a, b, x, y) => POp::Q(a + dx, b + dy, x + dx, y + dy),
+                                POp::C(a, b, c, d, x, y) => POp::C(a + dx, b + dy, c + dx, d + dy, x + dx, y + dy),
+                                POp::Z => POp::Z,
+                            };
+                        }
+                        // (the shifted move_to must be bit-equal to the end point)
+                        sub[0] = POp::M(end.0, end.1);
+                        start = end;
                     }
                     POp::M(ax, ay) => start = (ax, ay),
                     _ => {}
